@@ -29,7 +29,7 @@ SVC_TRUSTED = ['Coq 8.16.1 kernel + vm_compute', 'coq/Model/Service.v is a hand 
 
 
 def service_part(rep, pid, r, tier, known, *, monitors, backends=('ram', 'sqlmem'), nseq_quick=60, nseq_thorough=700,
-                 length=(6, 22), compare_backends=False, known_matcher=None, profile=None, tag='seq'):
+                 length=(6, 22), compare_backends=False, known_matcher=None, profile=None, tag='seq', seqgen=None):
   from harness import svc, svcmon
   broke = None
   concrete = False
@@ -39,7 +39,10 @@ def service_part(rep, pid, r, tier, known, *, monitors, backends=('ram', 'sqlmem
   try:
     for i in range(nseq):
       recycle = r.random() < 0.5
-      seq = svc.Gen(r, profile=profile).seq(r.randrange(*length), recycle=recycle)
+      if seqgen is not None:
+        seq = seqgen(r)
+      else:
+        seq = svc.Gen(r, profile=profile).seq(r.randrange(*length), recycle=recycle)
       seq = svc.fix_recycle(seq, recycle)
       per_backend = {}
       for be in backends:
